@@ -701,10 +701,14 @@ theorem bad_ok : CfgOk cfg0 ∧ GtfOk cfg0 bad ∧ ExtOk cfg0 bad ∧
    extOk_of_dec (by decide +kernel) (by decide +kernel) (by decide +kernel) (by decide +kernel) (by decide +kernel),
    by decide, by decide +kernel⟩
 
-/-- the row stored under `a_1` carries `transcript_id "a"`, `gene_id "G1"` -/
+/-- Defect D21, repaired (`fix: an inferred gene/transcript that collides with a file line no longer
+overwrites '<id>_1'`): in the file `bad` (an explicit transcript `a`, and another transcript called
+`a_1`) the row stored under `a_1` keeps its own ids.  On the pinned commit it carried
+`transcript_id "a"`, `gene_id "G1"` — the `UPDATE … WHERE id = 'a_1'` issued for the renamed duplicate of
+`a`; `MergeOk.noSuffixed` excludes such files and is therefore stronger than the repaired code needs. -/
 theorem noSuffixed_needed :
     (createDb .gtf cfg0 [] bad).toOption.map (fun db => (db.getRow? (s "a_1")).map (·.attrs)) =
-      some (some [(s "transcript_id", [s "a"]), (s "gene_id", [s "G1"])]) := by
+      some (some [(s "transcript_id", [s "a_1"]), (s "gene_id", [s "G0"])]) := by
   have h1 : createDb .gtf cfg0 [] bad =
       (updateRelationsGtf cfg0 bad0.1 bad0.2 >>= fun r => pure (finalize r.1 cfg0.dialect [] r.2)) := by
     simp only [createDb, bad_pop, bind, Except.bind]
